@@ -31,16 +31,21 @@ const (
 	OpWrite
 	OpYield
 	OpDone
+	OpLockWait
 )
 
 func (k OpKind) String() string {
-	return [...]string{"start", "lock", "unlock", "rlock", "runlock", "load", "store", "rmw", "read", "write", "yield", "done"}[k]
+	return [...]string{"start", "lock", "unlock", "rlock", "runlock", "load", "store", "rmw", "read", "write", "yield", "done", "lock-wait"}[k]
 }
 
 // MutexState is the simulated state of one (RW)mutex.
 type MutexState struct {
 	Writer  int // thread id+1 of the writer, 0 if none
 	Readers map[int]int
+	// Pending holds the threads that have called Lock and are waiting for the mutex to become free.
+	// Like sync.RWMutex, a waiting writer blocks new readers (this is what makes a recursive read
+	// lock deadlock against a concurrent Lock).
+	Pending map[int]bool
 	VC      []uint32 // release clock
 }
 
@@ -218,12 +223,12 @@ func (e *Exec) enabled(t *thread) bool {
 		return false
 	}
 	switch t.kind {
-	case OpLock:
+	case OpLockWait:
 		m := e.mutexes[t.obj]
 		return m == nil || (m.Writer == 0 && len(m.Readers) == 0)
 	case OpRLock:
 		m := e.mutexes[t.obj]
-		return m == nil || m.Writer == 0
+		return m == nil || (m.Writer == 0 && len(m.Pending) == 0)
 	}
 	return true
 }
@@ -255,7 +260,10 @@ func (e *Exec) loop() {
 				if !t.done {
 					info += fmt.Sprintf("T%d blocked at %s; ", t.id, t.kind)
 					if m := e.mutexes[t.obj]; m != nil {
-						info += fmt.Sprintf("(mutex writer=T%d readers=%d) ", m.Writer-1, len(m.Readers))
+						info += fmt.Sprintf("(mutex writer=T%d readers=%d waiting-writers=%d) ", m.Writer-1, len(m.Readers), len(m.Pending))
+						if t.kind == OpRLock && m.Readers[t.id] > 0 {
+							info += "read lock re-entered by a thread that already holds it while a writer waits; "
+						}
 						if m.Writer-1 == t.id {
 							info += "re-entered by its own holder; "
 						}
@@ -357,7 +365,7 @@ func join(a, b []uint32) {
 func (e *Exec) mutex(obj any) *MutexState {
 	m := e.mutexes[obj]
 	if m == nil {
-		m = &MutexState{Readers: map[int]int{}, VC: make([]uint32, len(e.threads))}
+		m = &MutexState{Readers: map[int]int{}, Pending: map[int]bool{}, VC: make([]uint32, len(e.threads))}
 		e.mutexes[obj] = m
 	}
 	return m
@@ -371,11 +379,22 @@ func (e *Exec) ev(t *thread, s string) {
 
 // Lock simulates Mutex.Lock / RWMutex.Lock.
 func (e *Exec) Lock(obj any) {
+	// The call itself is always possible; if the mutex is not free the caller becomes a waiting
+	// writer (which blocks new readers) and parks until it is.
 	t := e.point(OpLock, obj, 0)
 	if t == nil {
 		return
 	}
 	m := e.mutex(obj)
+	if m.Writer != 0 || len(m.Readers) > 0 {
+		m.Pending[t.id] = true
+		e.ev(t, "lock-announced (waiting writer)")
+		t = e.point(OpLockWait, obj, 0)
+		if t == nil {
+			return
+		}
+		delete(m.Pending, t.id)
+	}
 	m.Writer = t.id + 1
 	join(t.vc, m.VC)
 	e.ev(t, "lock")
